@@ -7,7 +7,8 @@ from . import c01
 EXPLANATION = ("TermFlow + CFG path rules on Bump::reset (callees inlined): the only way to return without doing the work is the true edge of is_empty(current chunk); on every other "
                "path to the return the tail is detached (cur.prev := EMPTY) and handed to the releaser, the finger of the kept chunk is stored with an EMPTY-class value (the footer "
                "address: full usable capacity again) and allocated_bytes is re-established; reset writes neither allocation_limit nor current_chunk_footer, and allocation_limit "
-               "is only written by constructors and set_allocation_limit.")
+               "is only written by constructors and set_allocation_limit."
+               ' (R5) the counter reset re-establishes satisfies the accounting invariant J4 (shared with C08); (R6) the releaser reset calls obeys the pairing / sentinel / use-after-free obligations of C03.')
 RULE = "rule instance = (rule, required effect or frame condition); distinct by (rule, effect)"
 
 
